@@ -71,6 +71,7 @@ def run(repo, rep, tier):
     r5 = rep.rule('C12.R5', 'error messages of the class resolver/provider '
                   'code can be built (well-formed format strings)')
     new_class_is_stored_whole(repo, rep)
+    compiler_names_the_namespace(repo, rep, 'C12.R17')
     operation_parameters_are_used(
         repo, rep, 'C12.R14', lambda n: 'Class' in n or 'Qualifier' in n)
     # hierarchies built by MOF compilation: the flavors written on a
@@ -1123,3 +1124,51 @@ def new_class_is_stored_whole(repo, rep):
                         'an element is removed from the class that is about '
                         'to be resolved and stored: what the caller declared '
                         'is replaced by what the superclass declares')
+
+
+def compiler_names_the_namespace(repo, rep, rid):
+    """C12.R17 / C09.R15: the grammar actions of the MOF compiler work on
+    `p.parser.handle`, whose class / qualifier operations are implemented
+    with `*args, **kwargs` and read the target namespace from
+    kwargs['namespace'] only (MOFWBEMConnection, _MockMOFWBEMConnection).
+    A namespace passed positionally, or not at all, is silently replaced by
+    the connection default: compiling `class A {...}` into root/other when
+    A exists there modifies A in the *default* namespace.  Deviant-sibling
+    rule: every class / qualifier operation called on the handle names the
+    namespace by keyword, as 11 of the 13 call sites do."""
+    r = rep.rule(rid, 'class and qualifier operations of the MOF compiler '
+                 'pass the target namespace by keyword')
+    MOF = 'pywbem/_mof_compiler.py'
+    OPS_ = ('CreateClass', 'ModifyClass', 'GetClass', 'DeleteClass',
+            'SetQualifier', 'DeleteQualifier', 'GetQualifier',
+            'EnumerateQualifiers', 'CreateInstance')
+    n = 0
+    for f in repo.module(MOF).all_funcs():
+        if not f.name.startswith('p_'):
+            continue
+        for c in walk_no_nested(f.node):
+            if not (isinstance(c, ast.Call) and
+                    isinstance(c.func, ast.Attribute) and
+                    c.func.attr in OPS_ and
+                    norm(c.func.value) == 'p.parser.handle'):
+                continue
+            n += 1
+            r.sites += 1
+            r.functions.add(f.fq)
+            kw = any(k.arg == 'namespace' for k in c.keywords)
+            ok = kw and len(c.args) <= 1
+            r.ob(ok, '%s|%s' % (f.qualname, norm(c, 60)))
+            if not ok:
+                rep.finding(r, f.qualname, norm(c, 70),
+                            'namespace-not-by-keyword', MOF, c.lineno,
+                            '%s() is called on the compiler handle %s: the '
+                            'handle implementations read only '
+                            'kwargs["namespace"], so the operation goes to '
+                            'the default namespace instead of the one being '
+                            'compiled into'
+                            % (c.func.attr,
+                               'with the namespace as a positional argument'
+                               if len(c.args) > 1 else
+                               'without a namespace'))
+    if n < 8:
+        raise AnalysisError('%s: only %d handle operations found' % (rid, n))
